@@ -153,8 +153,12 @@ theorem cex_noncanonical :
     (chainOf rs).map (fun ch => (evalChain ch 500 "application/json".toList).variant) = some "Status99".toList := by
   decide +kernel
 
-/-- server side: the status emitted for the `3XX` token is 500 (no arm in `HttpStatusCode`). -/
-theorem cex_redirection_500 : httpStatus (.named "Redirection3XX".toList) = 500 := by
+/-- server side: every range token is answered with the first code of its range (the `3XX` arm was missing —
+F05-3 / F06-4 — until the `fix:` commit; tables regenerated from `codegen/http.rs`). -/
+theorem range_first_code :
+    httpStatus (.named "Informational1XX".toList) = 100 ∧ httpStatus (.named "Success2XX".toList) = 200 ∧
+    httpStatus (.named "Redirection3XX".toList) = 300 ∧ httpStatus (.named "ClientError4XX".toList) = 400 ∧
+    httpStatus (.named "ServerError5XX".toList) = 500 := by
   decide +kernel
 
 /-! ## E. non-vacuity -/
